@@ -325,7 +325,8 @@ let ctx_call pre_ fn a =
               let clock = vc_sx (field "clock" st) and add = vc_sx (field "add_clock" r) in
               count "C07";
               if not (vc_eqb clock add) then
-                report "C07" (Printf.sprintf "%s hands out add_clock %s but the replica clock is %s" fn (show_vc add) (show_vc clock))
+                List.iter (fun p -> report p (Printf.sprintf "%s hands out add_clock %s but the replica clock is %s" fn (show_vc add) (show_vc clock)))
+                  (if pre_ = "orswot" then ["C07"; "C04"] else if is_map pre_ then ["C07"; "C05"] else ["C07"])
           | [] -> ())
        with Bad _ -> ()) in
   (* C07 for Orswot: the remove context of a member is exactly the clock of the member's
